@@ -45,11 +45,19 @@ class Operator(Token):
             return result
         except ZeroDivisionError:
             raise DivideByZeroError(self.stack)
-        except (TypeError, ArithmeticError):
+        except (TypeError, ArithmeticError, ValueError):
+            # ValueError: e.g. writing out an integer beyond the interpreter's digit limit
             raise MismatchError(
                 self.stack,
-                f"Operand {self.value} is not supported for '{left}' and '{right}'",
+                f"Operand {self.value} is not supported for '{self.show(left)}' and '{self.show(right)}'",
             )
+
+    @staticmethod
+    def show(value: Any) -> str:
+        try:
+            return str(value)
+        except ValueError:
+            return "<a number too large to write out>"
 
     @abstractmethod
     def solve_operand(self, left: Any, right: Any) -> Any:
